@@ -178,6 +178,7 @@ type vsBridge struct {
 	byHash          map[string]*vsBlk
 	pending         []*vsFetchCall
 	fetchedOK       map[int64]bool // every part of the height was delivered to a fetch at least once
+	fetchFailed     map[int64]int  // fetch / commit queries of the height that ended in failure (error, broken stream, timeout)
 	published       []uint64
 	pubDAH          map[uint64][]byte
 	hashes          []uint64
@@ -209,6 +210,7 @@ func (v *vsEndpoint) wait(ctx context.Context, kind string, h int64) (int, error
 				break
 			}
 		}
+		v.w.fetchFailed[h]++
 		v.w.mu.Unlock()
 		return 0, ctx.Err()
 	}
@@ -385,6 +387,40 @@ func (v *vsEndpoint) Status(ctx context.Context, _ *coregrpc.StatusRequest, _ ..
 	}, nil
 }
 
+// vsP2PHeaders is the header-only p2p fallback of core.Exchange: it serves the headers of the generated chain.
+type vsP2PHeaders struct{ w *vsBridge }
+
+func (p vsP2PHeaders) hdr(b *vsBlk) (*header.ExtendedHeader, error) {
+	if b == nil {
+		return nil, libhead.ErrNotFound
+	}
+	return header.MakeExtendedHeader(b.sb.Header, b.sb.Commit, b.sb.ValidatorSet, b.eds)
+}
+
+func (p vsP2PHeaders) Head(context.Context, ...libhead.HeadOption[*header.ExtendedHeader]) (*header.ExtendedHeader, error) {
+	return nil, libhead.ErrNotFound
+}
+
+func (p vsP2PHeaders) Get(_ context.Context, hash libhead.Hash) (*header.ExtendedHeader, error) {
+	p.w.s.Fault("p2p-header-fallback")
+	p.w.mu.Lock()
+	b := p.w.byHash[string(hash)]
+	p.w.mu.Unlock()
+	return p.hdr(b)
+}
+
+func (p vsP2PHeaders) GetByHeight(_ context.Context, h uint64) (*header.ExtendedHeader, error) {
+	p.w.s.Fault("p2p-header-fallback")
+	p.w.mu.Lock()
+	b := p.w.blocks[int64(h)]
+	p.w.mu.Unlock()
+	return p.hdr(b)
+}
+
+func (p vsP2PHeaders) GetRangeByHeight(context.Context, *header.ExtendedHeader, uint64) ([]*header.ExtendedHeader, error) {
+	return nil, libhead.ErrNotFound
+}
+
 type vsHeaderBcast struct{ w *vsBridge }
 
 func (b vsHeaderBcast) Broadcast(ctx context.Context, eh *header.ExtendedHeader, _ ...pubsub.PubOpt) error {
@@ -418,6 +454,9 @@ func (w *vsBridge) livePending() []*vsFetchCall {
 
 func (w *vsBridge) release(c *vsFetchCall, r int) {
 	w.mu.Lock()
+	if r != 0 && c.kind != "syncing" {
+		w.fetchFailed[c.height]++
+	}
 	for i, p := range w.pending {
 		if p == c {
 			w.pending = append(w.pending[:i], w.pending[i+1:]...)
@@ -438,7 +477,7 @@ func vsListenerWorld(s *verifsim.Sim, dir string) {
 	withExchange := s.Chance(1, 2, "with_exchange")
 	window := time.Hour
 	s.Cfg["path"], s.Cfg["archival"], s.Cfg["nsources"], s.Cfg["fs_faults"], s.Cfg["exchange"] = "listener", archival, nsrc, fsFaults, withExchange
-	w := &vsBridge{s: s, blocks: map[int64]*vsBlk{}, byHash: map[string]*vsBlk{}, fetchedOK: map[int64]bool{}, pubDAH: map[uint64][]byte{},
+	w := &vsBridge{s: s, blocks: map[int64]*vsBlk{}, byHash: map[string]*vsBlk{}, fetchedOK: map[int64]bool{}, fetchFailed: map[int64]int{}, pubDAH: map[uint64][]byte{},
 		storedAtPublish: map[uint64]bool{}, dropped: map[string]bool{}, exTouched: map[int64]bool{}, vals: vsValidators()}
 	ctl := &verifsim.FSControl{}
 	verifsim.InstallFS(ctl)
@@ -529,8 +568,14 @@ func vsListenerWorld(s *verifsim.Sim, dir string) {
 		panic(err)
 	}
 	var ex *Exchange
+	withFallback := withExchange && s.Chance(1, 2, "p2p_fallback")
+	s.Cfg["p2p_fallback"] = withFallback
 	if withExchange {
-		ex, err = NewExchange(fetchers[0], st, header.MakeExtendedHeader, opts...)
+		exOpts := opts
+		if withFallback {
+			exOpts = append(append([]Option{}, opts...), WithP2PExchange(vsP2PHeaders{w}))
+		}
+		ex, err = NewExchange(fetchers[0], st, header.MakeExtendedHeader, exOpts...)
 		if err != nil {
 			panic(err)
 		}
@@ -558,6 +603,12 @@ func vsListenerWorld(s *verifsim.Sim, dir string) {
 			defer func() { exBusy-- }()
 			cctx, cancel := context.WithTimeout(ctx, 15*time.Second)
 			defer cancel()
+			failedBefore := map[int64]int{}
+			w.mu.Lock()
+			for i := int64(0); i < int64(amount); i++ {
+				failedBefore[h+i] = w.fetchFailed[h+i]
+			}
+			w.mu.Unlock()
 			var got []*header.ExtendedHeader
 			var err error
 			what := ""
@@ -595,6 +646,14 @@ func vsListenerWorld(s *verifsim.Sim, dir string) {
 				resume := ctl.Pause()
 				has, herr := st.HasByHeight(ctx, eh.Height())
 				resume()
+				// with a p2p fallback a header may legitimately come without its square - when core could not
+				// serve the block; judged when no fetch or commit query of the height failed during the call
+				w.mu.Lock()
+				coreFailed := w.fetchFailed[int64(eh.Height())] != failedBefore[int64(eh.Height())]
+				w.mu.Unlock()
+				if withFallback && coreFailed {
+					continue
+				}
 				if herr == nil && !has && (want.inside || archival) {
 					s.Violate("c15-obtained-block-not-stored", "Exchange", "%s returned the header of height %d (inside window=%v, archival=%v) but the square is not in the store", what, eh.Height(), want.inside, archival)
 					return
